@@ -27,6 +27,34 @@ theorem strip_underlines_spec (s t : List Nat) :
 example : stripUnderlines [49, 95, 48, 46, 53] = some [49, 48, 46, 53] := by decide
 example : stripUnderlines [49, 95, 46, 53] = none := by decide
 
+/-! ### parsing: the two entry points -/
+
+/-- On ASCII input without a vertical tab, `parse_bytes` and `parse_str` agree. -/
+theorem parse_bytes_eq_parse_str_partial (bs : List Nat) (h : ∀ b ∈ bs, b < 128 ∧ b ≠ 11) :
+    parseBytes bs = parseStr bs := by
+  unfold parseBytes parseStr
+  have hw : ∀ c ∈ bs, isAsciiWhitespace c = isWhitespace c := by
+    intro c hc
+    obtain ⟨h1, h2⟩ := h c hc
+    simp only [isAsciiWhitespace, isWhitespace]
+    by_cases a : c = 32 <;> by_cases b : c = 9 <;> by_cases d : c = 10 <;> by_cases e : c = 12 <;>
+      by_cases f : c = 13 <;> simp [*] <;> omega
+  rw [trimWith_congr bs hw, utf8Encode_ascii]
+  intro c hc
+  exact (h c (mem_trimWith hc)).1
+
+/-- With a vertical tab they differ (`u8::is_ascii_whitespace` excludes it, `char::is_whitespace`
+    and Python's `float()` include it). -/
+def parse_bytes_eq_parse_str_full : Prop := ∀ bs, (∀ b ∈ bs, b < 128) → parseBytes bs = parseStr bs
+
+theorem parse_bytes_vertical_tab_fails : ¬ parse_bytes_eq_parse_str_full :=
+  fun h => absurd (h [11, 49] (by decide)) (by decide +kernel)
+
+
+example : parseBytes [32, 49, 95, 48, 46, 53, 10] = parseStr [32, 49, 95, 48, 46, 53, 10] :=
+  parse_bytes_eq_parse_str_partial _ (by decide)
+example : parseStr [32, 49, 95, 48, 46, 53, 10] = some 0x4025000000000000 := by decide +kernel
+
 /-! ### repr: special values and shape -/
 
 /-- NaN and the infinities render as Python's `nan`, `inf`, `-inf`. -/
@@ -77,7 +105,48 @@ theorem repr_shape (bits : Nat) (hf : isFinite bits = true) :
 example : toString 0x4341C37937E08000 = [49, 101, 43, 49, 54] := by decide +kernel
 example : toString 0x430C6BF526340000 = [49,48,48,48,48,48,48,48,48,48,48,48,48,48,48,48,46,48] := by decide +kernel
 example : toString 0x3E8421F5F40D8376 = [49, 46, 53, 101, 45, 48, 55] := by decide +kernel
-example : FracDigits 0x3F1A36E2EB1C432D := by unfold FracDigits; decide +kernel
+example : FracDigits 0x3F1A36E2EB1C432D := by decide +kernel
+
+/-! ### repr: round trip -/
+
+/-- Round trip of the repr-style rendering, for every finite double on which digit generation
+    behaves (`DecFacts`, which fails exactly at `±0.9999999999999999`, see `repr_roundtrip_fails`):
+    `parse_str(to_string(x)) = x`, bit for bit. -/
+theorem repr_roundtrip_partial (bits : Nat) (hf : isFinite bits = true) (h : DecFacts bits) :
+    parseStr (toString bits) = some bits := by
+  unfold toString
+  simp only [hf, if_true]
+  rw [show (shortestExpL bits) = ((shortestExpL bits).1, (shortestExpL bits).2) from rfl]
+  simp only
+  by_cases hr : (shortestExpL bits).2 < 16 ∧ (shortestExpL bits).2 > -5
+  · simp only [hr, and_self, if_true]
+    by_cases hi : isInteger bits = true
+    · simp only [hi, if_true]
+      rw [shortestExpL_snd] at hr
+      exact roundtrip_fixed1 bits hf (h.2.1 hr hi)
+    · simp only [hi]
+      have hi' : isInteger bits = false := by simpa using hi
+      exact roundtrip_shortestFixed bits hf h (h.2.2 hi')
+  · simp only [hr, if_false]
+    exact roundtrip_exp bits h
+
+
+-- 1/3, 1e22, 5e-324, 123456.0 all satisfy the hypothesis
+example : DecFacts 0x3FD5555555555555 := by decide +kernel
+example : DecFacts 0x4480F0CF064DD592 := by decide +kernel
+example : DecFacts 1 := by decide +kernel
+example : DecFacts 0x40FE240000000000 := by decide +kernel
+
+/-- The unrestricted round trip fails: `0.9999999999999999` (`1 - 2^-53`) passes the
+    `is_integer` test (`|v - round v| = 2^-53 < EPSILON`), is rendered `1.0` and parses back to `1.0`. -/
+def repr_roundtrip_full : Prop :=
+  ∀ bits, isFinite bits = true → parseStr (toString bits) = some bits
+
+theorem repr_roundtrip_fails : ¬ repr_roundtrip_full :=
+  fun h => absurd (h 0x3FEFFFFFFFFFFFFF (by decide +kernel)) (by decide +kernel)
+
+example : toString 0x3FEFFFFFFFFFFFFF = [49, 46, 48] := by decide +kernel
+example : ¬ DecFacts 0x3FEFFFFFFFFFFFFF := by decide +kernel
 
 /-! ### hexadecimal text -/
 
@@ -234,7 +303,7 @@ theorem general_decision_eq_printf (prec bits : Nat) (upper alt : Bool) (hp : 1 
           simp only [showDigits, List.map_cons, List.map_nil, List.cons_append, List.nil_append] at this
           simp only [showDigits] at *
           rw [this]
-          cases alt <;> cases upper <;> simp [showDigits]
+          cases alt <;> cases upper <;> simp
           all_goals (split <;> simp_all)
       · have hc' : (x < (prec : Int) ∧ x ≥ -4) := by omega
         simp only [hc, hc', if_true, if_false, and_self]
@@ -271,5 +340,15 @@ def general_eq_printf_full : Prop :=
 
 theorem general_precision0_fails : ¬ general_eq_printf_full :=
   fun h => absurd (h 0 0x4014000000000000 false false rfl) (by decide +kernel)
+
+/-! ### `from_hex`: inexact input (known finding) -/
+
+/-- `from_hex` rejects a text whose value needs rounding (`float.fromhex` returns 1.0 / 0.0). -/
+theorem from_hex_inexact_rejected :
+    fromHex [48,120,49,46,48,48,48,48,48,48,48,48,48,48,48,48,48,48,49,112,48] = none ∧
+    fromHex [48, 120, 49, 112, 45, 49, 48, 55, 53] = none := by decide +kernel
+
+example : fromHex [48, 120, 49, 46, 56, 112, 49] = some 0x4008000000000000 := by decide +kernel
+example : fromHex [45, 49, 46, 56] = some 0xBFF8000000000000 := by decide +kernel
 
 end PV.C17
